@@ -35,31 +35,59 @@ contract(f"{CK}._setup_checkpointing", scenarios=[("full_config.", setup_sc(True
     ensures={"accepted_domain": lambda c, q: z3.And(c.f >= 0, c.m >= 0), "disabled_creates_nothing": post_disabled, "enabled_creates_manager_and_config": post_enabled})
 
 # ---------------- restore(): error paths, overrides, complete assignment of the restored state (C10)
-def setup_restore(I):
-    vimod = I.load_module("mdpax.solvers.value_iteration").globals; cls = vimod["ValueIteration"]
-    I.ghost["effects"] = []
-    saved_cfg = Obj("DictConfig", {"checkpoint_dir": "orig", "checkpoint_frequency": z3.Int("f_saved"), "max_checkpoints": z3.Int("m_saved"),
-                                   "enable_async_checkpointing": z3.Bool("async_saved"), "gamma": z3.Real("gamma_saved")}, label="loaded_config")
-    I.ghost["saved_config"] = saved_cfg
-    fresh = Obj(cls, {"values": ("fresh", "values"), "policy": None, "iteration": 0}, label="fresh_solver")
-    def inst(cfg):
-        I.ghost.setdefault("effects", []).append(("instantiate", (dict(cfg.attrs),), list(I.pc))); return fresh
-    I.ghost["instantiate"] = inst
-    step = z3.Int("step_arg"); has_step = z3.Bool("step_given")
-    f_new = z3.Int("f_new"); give_f = z3.Bool("give_f")
-    return Ctx(self=cls, _args=[I.PathV("ckdir")], _kwargs={}, I=I, fresh=fresh, saved=saved_cfg, cls=cls)
+import itertools as _it
+def setup_restore(mask):
+    """mask: which of (step, new_checkpoint_dir, checkpoint_frequency, max_checkpoints, enable_async_checkpointing) are passed; values symbolic"""
+    def setup(I):
+        vimod = I.load_module("mdpax.solvers.value_iteration").globals; cls = vimod["ValueIteration"]
+        I.ghost["effects"] = []
+        saved = {"checkpoint_dir": "orig", "checkpoint_frequency": z3.Int("f_saved"), "max_checkpoints": z3.Int("m_saved"),
+                 "enable_async_checkpointing": z3.Bool("async_saved"), "gamma": z3.Real("gamma_saved")}
+        saved_cfg = Obj("DictConfig", dict(saved), label="loaded_config")
+        I.ghost["saved_config"] = saved_cfg
+        fresh = Obj(cls, {"values": ("fresh", "values"), "policy": None, "iteration": 0}, label="fresh_solver")
+        seen = []
+        def inst(cfg):
+            seen.append(dict(cfg.attrs)); I.ghost.setdefault("effects", []).append(("instantiate", (dict(cfg.attrs),), list(I.pc))); return fresh
+        I.ghost["instantiate"] = inst
+        step, f_new, m_new = z3.Ints("step_arg f_new m_new"); a_new = z3.Bool("async_new")
+        I.assume(z3.And(step >= 1, f_new >= 0, m_new >= 0))            # every value the documented domain allows, in particular 0 (= checkpointing disabled)
+        given = dict(zip(("step", "new_checkpoint_dir", "checkpoint_frequency", "max_checkpoints", "enable_async_checkpointing"), mask))
+        vals = {"step": step, "new_checkpoint_dir": I.PathV("new_dir"), "checkpoint_frequency": f_new, "max_checkpoints": m_new, "enable_async_checkpointing": a_new}
+        kw = {k: vals[k] for k, g in given.items() if g}
+        return Ctx(self=cls, _args=[I.PathV("ckdir")], _kwargs=kw, I=I, fresh=fresh, saved=saved, cls=cls, given=given, vals=vals, seen=seen)
+    return setup
+def post_overrides(c, q):
+    """the configuration handed to instantiate equals the loaded one except exactly for the overrides that were passed (any passed value, 0 and False included)"""
+    if len(c.seen) != 1: return z3.BoolVal(False)
+    cfg = c.seen[0]; conj = []
+    for k, arg in (("checkpoint_frequency", "checkpoint_frequency"), ("max_checkpoints", "max_checkpoints"), ("enable_async_checkpointing", "enable_async_checkpointing")):
+        want = c.vals[arg] if c.given[arg] else c.saved[k]
+        conj.append(toz3(cfg[k]) == toz3(want))
+    d = cfg["checkpoint_dir"]
+    conj.append(z3.BoolVal((getattr(d, "s", d) == "new_dir") if c.given["new_checkpoint_dir"] else (d == "orig")))
+    conj.append(toz3(cfg["gamma"]) == toz3(c.saved["gamma"]))
+    return z3.And(*conj)
+def post_step(c, q):
+    rest = eff(c, "cm.restore"); news = eff(c, "cm.new")
+    if len(rest) != 1 or len(news) != 1: return z3.BoolVal(False)
+    ok = z3.BoolVal("ckdir" in news[0][1][0])                         # the state is read from the ORIGINAL directory, whatever new_checkpoint_dir says
+    if c.given["step"]: ok = z3.And(ok, toz3(rest[0][1][1]) == c.vals["step"])
+    return ok
 def eff(c, kind): return [e for e in c.I.ghost.get("effects", []) if e[0] == kind]
 def post_restored(c, q):
     s = c.result
     ok = isinstance(s, Obj) and s is c.fresh and isinstance(s.attrs["values"], tuple) and s.attrs["values"][0] == "restored" and s.attrs["values"][3] == ("values",) \
          and isinstance(s.attrs["iteration"], tuple) and s.attrs["iteration"][3] == ("info", "iteration")
     return z3.BoolVal(bool(ok))
-contract(f"{CK}.restore", setup=setup_restore,
+contract(f"{CK}.restore", scenarios=[("".join("sdfma"[i] if b else "-" for i, b in enumerate(m)) + ".", setup_restore(m)) for m in _it.product([False, True], repeat=5)],
     raises=[("FileNotFoundError", lambda c, q: z3.BoolVal(len(eff(c, "instantiate")) == 0 and len(eff(c, "cm.new")) == 0)),      # before any other effect
             ("ValueError", lambda c, q: z3.BoolVal(len(eff(c, "cm.restore")) == 0))],
     ensures={"every_state_field_assigned_from_checkpoint": post_restored,
              "config_loaded_then_instantiated_once": lambda c, q: z3.BoolVal(len(eff(c, "omegaconf.load")) == 1 and len(eff(c, "instantiate")) == 1),
-             "template_policy_none_stays_none": lambda c, q: z3.BoolVal(c.result.attrs["policy"] is None)})
+             "template_policy_none_stays_none": lambda c, q: z3.BoolVal(c.result.attrs["policy"] is None),
+             "overrides_applied_field_by_field_and_to_nothing_else": post_overrides,
+             "state_read_from_original_directory_at_the_chosen_step": post_step})
 
 # ---------------- has_full_config (both directions) and load_checkpoint (C10)
 def setup_hfc(I):
